@@ -3,10 +3,45 @@
 // Contracts for package cmd, checked by /verif (govc). Comment-only file.
 package cmd
 
+// C09 / C10 / C16 / C18: the composition root hands every field of the payload to the DI container under its own
+// name (the patterns as one list, in flag order; version and build info not mixed up), switches each of the two
+// optional rules with its own flag, and does nothing else (it neither prints nor builds a second runner). What the
+// generated container (internal/gontainer) then wires from those parameters is assumed (contracts/assumed/container.spec)
+// and evaluated by the composition test.
 //@ func buildRunner effect
-//@   property C12 C10 C16
-//@   trusted "composition root: drives the generated DI container (internal/gontainer, reflection-based runtime); its wiring is evaluated by the composition test, not proved"
+//@   property C12 C10 C16 C09 C18
 //@   ensures [steps_wired] result != nil && (forall j int :: 0 <= j && j < len(result.steps) ==> result.steps[j] != nil)
+//@   ensures [patterns_reach_the_container_in_flag_order] exists k int :: old(tlen()) <= k && k < tlen() && evIs(k, "github.com/gontainer/gontainer-helpers/v3/container.(*Container).OverrideParam") && evS1(k) == "inputPatterns"
+//@        && evArg(k, container.Dependency) == container.NewDependencyValue(p.inputPatterns)
+//@   ensures [output_file_reaches_the_container] exists k int :: old(tlen()) <= k && k < tlen() && evIs(k, "github.com/gontainer/gontainer-helpers/v3/container.(*Container).OverrideParam") && evS1(k) == "outputFile"
+//@        && evArg(k, container.Dependency) == container.NewDependencyValue(p.outputFile)
+//@   ensures [version_reaches_the_container] exists k int :: old(tlen()) <= k && k < tlen() && evIs(k, "github.com/gontainer/gontainer-helpers/v3/container.(*Container).OverrideParam") && evS1(k) == "version"
+//@        && evArg(k, container.Dependency) == container.NewDependencyValue(p.version)
+//@   ensures [build_info_reaches_the_container] exists k int :: old(tlen()) <= k && k < tlen() && evIs(k, "github.com/gontainer/gontainer-helpers/v3/container.(*Container).OverrideParam") && evS1(k) == "buildInfo"
+//@        && evArg(k, container.Dependency) == container.NewDependencyValue(p.buildInfo)
+//@   ensures [stub_reaches_the_container] exists k int :: old(tlen()) <= k && k < tlen() && evIs(k, "github.com/gontainer/gontainer-helpers/v3/container.(*Container).OverrideParam") && evS1(k) == "stub"
+//@        && evArg(k, container.Dependency) == container.NewDependencyValue(p.stub)
+//@   ensures [each_parameter_is_set_once] forall a int, b int :: old(tlen()) <= a && a < tlen() && old(tlen()) <= b && b < tlen()
+//@        && evIs(a, "github.com/gontainer/gontainer-helpers/v3/container.(*Container).OverrideParam")
+//@        && evIs(b, "github.com/gontainer/gontainer-helpers/v3/container.(*Container).OverrideParam") && evS1(a) == evS1(b) ==> a == b
+//@   ensures [missing_params_rule_is_switched_by_its_own_flag C16] exists g int, a int :: old(tlen()) <= g && g < a && a < tlen()
+//@        && evIs(g, "internal/gontainer:(*gontainer).MustGetStepValidateParamsExist") && evIs(a, "internal/cmd/runner:(*StepVerboseSwitchable).Active")
+//@        && evFrom(a) == g && evB1(a) == p.paramsExistActive
+//@   ensures [missing_services_rule_is_switched_by_its_own_flag C16] exists g int, a int :: old(tlen()) <= g && g < a && a < tlen()
+//@        && evIs(g, "internal/gontainer:(*gontainer).MustGetStepValidateServicesExist") && evIs(a, "internal/cmd/runner:(*StepVerboseSwitchable).Active")
+//@        && evFrom(a) == g && evB1(a) == p.servicesExistActive
+//@   ensures [nothing_else_is_switched C16] forall a int :: old(tlen()) <= a && a < tlen() && evIs(a, "internal/cmd/runner:(*StepVerboseSwitchable).Active") ==>
+//@        old(tlen()) <= evFrom(a) && evFrom(a) < a
+//@        && ((evIs(evFrom(a), "internal/gontainer:(*gontainer).MustGetStepValidateParamsExist") && evB1(a) == p.paramsExistActive)
+//@         || (evIs(evFrom(a), "internal/gontainer:(*gontainer).MustGetStepValidateServicesExist") && evB1(a) == p.servicesExistActive))
+//@   ensures [talks_to_the_container_only] forall k int :: old(tlen()) <= k && k < tlen() ==>
+//@        evIs(k, "github.com/gontainer/gontainer-helpers/v3/container.(*Container).OverrideParam")
+//@        || evIs(k, "github.com/gontainer/gontainer-helpers/v3/container.(*Container).OverrideService")
+//@        || evIs(k, "github.com/gontainer/gontainer-helpers/v3/container.(*Service).SetValue")
+//@        || evIs(k, "internal/gontainer:(*gontainer).MustGetStepValidateParamsExist")
+//@        || evIs(k, "internal/gontainer:(*gontainer).MustGetStepValidateServicesExist")
+//@        || evIs(k, "internal/gontainer:(*gontainer).MustGetRunner")
+//@        || evIs(k, "internal/cmd/runner:(*StepVerboseSwitchable).Active")
 
 // C09: -i may be given several times and every occurrence is one pattern, taken literally (a string *array* flag, not a
 // comma-separated slice flag); -o is a plain string flag.
